@@ -543,6 +543,52 @@ func run(r *mon.Run) {
 			guard(r, "ReadExchange", "reader=never-ending(8MiB)", s[:len(s)-50], len(s)+8<<20, func() { signedexchange.ReadExchange(hr) })
 		}
 	}
+	// validly signed exchanges with EVERY status code 100..999 (and a few outside), with and without freshness
+	// information: the signature and the payload verify, so the status-dependent steps (is the code understood, is the
+	// response storable by default) are reached for every value
+	{
+		var codes []int
+		for c := 100; c <= 999; c++ {
+			codes = append(codes, c)
+		}
+		codes = append(codes, 0, 1, 99, 1000, 65535, 65536, 1<<31-1)
+		for _, ver := range gen.SXGVersions {
+			for ci, st := range codes {
+				if !mine() {
+					continue
+				}
+				if !r.Thorough && st >= 600 && ci%7 != 0 {
+					continue
+				}
+				g := r.Rand("status-sweep", ci)
+				spec := gen.DefaultSXG(g, ver, idA, "example.com", 5, 16)
+				spec.Status = st
+				spec.RespHeaders = http.Header{"Content-Type": {"text/html"}}
+				if cc := []string{"", "public", "max-age=60", "no-cache"}[ci%4]; cc != "" {
+					spec.RespHeaders["Cache-Control"] = []string{cc}
+				}
+				e, _, err := spec.Build()
+				if err != nil {
+					r.Count("note:status-sweep-exchange-not-signable")
+					continue
+				}
+				t := spec.Date.Add(time.Minute)
+				guard(r, "Exchange.Verify(validly signed, every status code)", fmt.Sprintf("status/%s/in-memory", ver), []byte(fmt.Sprintf("%s status=%d cache-control=%q", ver, st, spec.RespHeaders.Get("Cache-Control"))), 2000+len(idA.CBOR), func() {
+					e.Verify(t, idA.Fetcher(), quietLog)
+				})
+				var buf bytes.Buffer
+				if err := e.Write(&buf); err != nil {
+					continue
+				}
+				file := buf.Bytes()
+				guard(r, "ReadExchange+Verify(validly signed, every status code)", fmt.Sprintf("status/%s/file", ver), file, len(file)+len(idA.CBOR), func() {
+					if back, err := signedexchange.ReadExchange(bytes.NewReader(file)); err == nil {
+						back.Verify(t, idA.Fetcher(), quietLog)
+					}
+				})
+			}
+		}
+	}
 	// validly signed exchanges whose header VALUES are hostile: the signature, the integrity check and every earlier
 	// step pass, so the code that interprets Cache-Control / Expires / Content-Type / Vary ... sees the values
 	{
